@@ -54,6 +54,102 @@ def baseline(ctx, rule='baseline-is-last-reported'):
     r.count('baseline_sites', len(asg) + len(cmps))
 
 
+def same_answer_table(ctx, rule='same-answer-table'):
+    """which (trigger, status, value presence, timestamp) combinations are answered "same" (= not reported):
+    compare_value_option says same without consulting the filter only for (None, None), says different for exactly one None and
+    defers to compare_value(v1, v2) for two values; compare says same only after status equality (every trigger), value
+    sameness (StatusValue, StatusValueTimestamp) and server timestamp equality (StatusValueTimestamp)."""
+    from ..rulelib import incoming_literal_sets
+    r, db = ctx.r, ctx.db
+    P = 'types::service_types::impls::<impl types::service_types::data_change_filter::DataChangeFilter>::'
+    n = 0
+    b = db.body(P + 'compare_value_option')
+    if b is None:
+        r.lost(rule, 'compare_value_option', 'not found')
+    else:
+        F = ctx.facts(b)
+        seen_defer = False
+        for d in b.defs().get(0, []):
+            n += 1
+            if d[0] == 'stmt':
+                bi, si = d[1], d[2]
+                val = fmt_sym(b, F.sym_rvalue(d[3], bi, si))
+                sets = [[fmt_lit(b, l) for l, e in F.literals_at(bi, si)]]
+                if not sets[0]:
+                    sets = incoming_literal_sets(b, F, bi) or [[]]
+                for lits in sets:
+                    n1 = any(re.match(r'^\(\*v1\(_\d+\)\) is None$', x) for x in lits); s1 = any(re.match(r'^\(\*v1\(_\d+\)\) is Some$', x) for x in lits)
+                    n2 = any(re.match(r'^\(\*v2\(_\d+\)\) is None$', x) for x in lits); s2 = any(re.match(r'^\(\*v2\(_\d+\)\) is Some$', x) for x in lits)
+                    key = 'compare_value_option:%s@%s' % (val, '+'.join(sorted(x.split(') is ')[-1] + x[3:5] for x in lits)) or 'unguarded')
+                    if val in ('1', 'true'):
+                        if n1 and n2:
+                            r.ok(rule, key, 'answers "same" without the filter only when both values are absent', loc=b.loc)
+                        else:
+                            r.fail(rule, key, 'compare_value_option answers "same" under [%s]: a value appearing where the last report had none (or the reverse) is never reported'
+                                   % ', '.join(lits), loc=b.loc)
+                    elif val in ('0', 'false'):
+                        if (n1 and s2) or (s1 and n2):
+                            r.ok(rule, key, 'answers "different" when exactly one of the values is absent', loc=b.loc)
+                        else:
+                            r.fail(rule, key, 'compare_value_option answers "different" under [%s]: reported although nothing the trigger selects changed' % ', '.join(lits), loc=b.loc)
+                    else:
+                        r.fail(rule, key, 'compare_value_option answers %s: not one of the three recognised rows' % val[:80], loc=b.loc)
+            else:
+                c = d[2]
+                lits = [fmt_lit(b, l) for l, e in F.literals_at(d[1])]
+                a = [fmt_sym(b, F.sym_operand(x)) for x in c.args]
+                both = any(re.match(r'^\(\*v1\(_\d+\)\) is Some$', x) for x in lits) and any(re.match(r'^\(\*v2\(_\d+\)\) is Some$', x) for x in lits)
+                m = re.match(r'^impls::compare_value\(&\(\*self\(_1\)\), &\(\*v1\(_\d+\)\)@Some\.0, &\(\*v2\(_\d+\)\)@Some\.0, eu_range\(_\d+\)\)$', a[0]) if a else None
+                if c.callee.endswith('Result::unwrap_or') and both and m:
+                    seen_defer = True
+                    r.ok(rule, 'compare_value_option:defer', 'two present values are decided by compare_value(v1, v2, eu_range)', loc=c.loc)
+                else:
+                    r.fail(rule, 'compare_value_option:defer', 'the answer %s(%s) under [%s] is not compare_value on the two present values' % (c.callee.rsplit('::', 1)[-1], ', '.join(a)[:100], ', '.join(lits)), loc=c.loc)
+        if not seen_defer:
+            r.fail(rule, 'compare_value_option:defer-missing', 'compare_value_option never consults compare_value: the filter (deadband) is not applied', loc=b.loc)
+    b = db.body(P + 'compare')
+    if b is None:
+        r.lost(rule, 'compare', 'not found')
+    else:
+        F = ctx.facts(b)
+        ST = r'\(\*v1\(_\d+\)\)\.status eq \(\*v2\(_\d+\)\)\.status'
+        VO = r'impls::compare_value_option\(&\(\*self\(_1\)\), &\(\*v1\(_\d+\)\)\.value, &\(\*v2\(_\d+\)\)\.value, eu_range\(_\d+\)\) == True'
+        need = {'Status': [], 'StatusValue': [ST], 'StatusValueTimestamp': [ST, VO]}
+        final = {'Status': r'^PartialEq::eq\(&\(\*v1\(_\d+\)\)\.status, &\(\*v2\(_\d+\)\)\.status\)$',
+                 'StatusValue': r'^impls::compare_value_option\(&\(\*self\(_1\)\), &\(\*v1\(_\d+\)\)\.value, &\(\*v2\(_\d+\)\)\.value, eu_range\(_\d+\)\)$',
+                 'StatusValueTimestamp': r'^PartialEq::eq\(&\(\*v1\(_\d+\)\)\.server_timestamp, &\(\*v2\(_\d+\)\)\.server_timestamp\)$'}
+        done = set()
+        for d in b.defs().get(0, []):
+            if d[0] == 'stmt':
+                bi, si = d[1], d[2]
+                val = fmt_sym(b, F.sym_rvalue(d[3], bi, si))
+                lits = [fmt_lit(b, l) for l, e in F.literals_at(bi, si)]
+                what = val
+            else:
+                lits = [fmt_lit(b, l) for l, e in F.literals_at(d[1])]
+                val = None
+                what = '%s(%s)' % ('impls::' + d[2].callee.rsplit('::', 1)[-1] if 'impls' in d[2].callee else 'PartialEq::' + d[2].callee.rsplit('::', 1)[-1],
+                                   ', '.join(fmt_sym(b, F.sym_operand(x)) for x in d[2].args))
+            trig = [m.group(1) for x in lits for m in [re.match(r'^\(\*self\(_1\)\)\.trigger is (\w+)$', x)] if m]
+            n += 1
+            if len(trig) != 1 or trig[0] not in need:
+                r.fail(rule, 'compare:%s' % what[:40], 'compare answers %s under [%s]: not tied to one trigger' % (what[:80], ', '.join(lits)), loc=b.loc); continue
+            t = trig[0]
+            if val in ('0', 'false'):
+                r.ok(rule, 'compare:%s:different@%d' % (t, d[1]), 'trigger %s: an early "different"' % t, loc=b.loc); continue
+            if val is None and re.match(final[t], what) and all(any(re.search(p_, x) for x in lits) for p_ in need[t]):
+                done.add(t)
+                r.ok(rule, 'compare:%s:same' % t, 'trigger %s: "same" needs %s' % (t, {'Status': 'equal status', 'StatusValue': 'equal status and same value',
+                     'StatusValueTimestamp': 'equal status, same value and equal server timestamp'}[t]), loc=b.loc)
+            else:
+                r.fail(rule, 'compare:%s:same' % t, 'trigger %s answers %s under [%s]: a change the trigger selects is not reported (or an unselected one is)' % (t, what[:100], ', '.join(lits)[:200]), loc=b.loc)
+        for t in need:
+            if t not in done:
+                r.fail(rule, 'compare:%s:missing' % t, 'no answer of compare recognised for trigger %s' % t, loc=b.loc)
+    r.count('same_answer_rows', n)
+    r.floor(rule, 'same_answer_rows', n, 8)
+
+
 def run(ctx):
     r, db = ctx.r, ctx.db
     r.explanation = ('One clause of the property: DataChangeFilter::compare_value answers Err - which sampling interprets as "no change" '
@@ -61,9 +157,10 @@ def run(ctx):
                      '(MonitoredItem::check_for_data_change) is checked to pass either a real EU range or the constant None; in the latter '
                      'case the accepting construction Ok(FilterType::DataChangeFilter(..)) in FilterType::from_filter must be dominated by '
                      'the edges deadband_type != Percent, deadband_type <= Percent and deadband_value >= 0 (IEEE: a positive comparison, so '
-                     'NaN is refused too). Baseline clause: MonitoredItem.last_data_value - the value every comparison reads - is replaced only on the reporting branch. Trigger semantics and deadband arithmetic are not decided.')
+                     'NaN is refused too). Baseline clause: MonitoredItem.last_data_value - the value every comparison reads - is replaced only on the reporting branch. Answer table: compare / compare_value_option say "same" only on the rows the trigger allows (status; status and value; status, value and server timestamp; absent vs present value is a change). Deadband arithmetic is not decided.')
     r.rule_text = 'E6 agreement between the error conditions of compare_value and the acceptance guard in from_filter (MIR edge literals)'
     baseline(ctx)
+    same_answer_table(ctx)
     rule = 'accepted-filter-can-report'
     cb = db.body('server::subscriptions::monitored_item::MonitoredItem::check_for_data_change')
     if cb is None:
